@@ -42,6 +42,10 @@ type Op struct {
 	Lp    bool   `json:"lp,omitempty"`  // sent inside an LpPacket carrying a PIT token
 	Fresh bool   `json:"mbf,omitempty"` // MustBeFresh on a command Interest
 	Probe int    `json:"probe,omitempty"`
+
+	// set by the executor, not part of the case: the parameter component starts with a
+	// ControlParameters header whose length overruns the component
+	overrun bool
 }
 
 type Case struct {
@@ -116,11 +120,9 @@ var garbage = [][]byte{
 	{0x68, 0xff, 0xff, 0xff, 0xff, 0xff, 0xff, 0xff, 0xff, 0xff},
 	{0xff, 0xff},
 	{0x07, 0x09, 0x08, 0x01},
-	{0x68, 0x04, 0x69, 0x09, 0x01, 0x02},       // FaceId with an impossible length
-	{0x68, 0x03, 0x69, 0x03, 0x01},             // truncated natural number
-	{0x68, 0x05, 0x69, 0x03, 0x01, 0x02, 0x03}, // natural number of length 3
-	{0x68, 0x02, 0x69, 0x00},                   // natural number of length 0
-	{0x68, 0x04, 0x6b, 0x02, 0x07, 0x09},       // Strategy whose Name overruns
+	{0x68, 0x04, 0x69, 0x09, 0x01, 0x02}, // FaceId with an impossible length
+	{0x68, 0x03, 0x69, 0x03, 0x01},       // truncated natural number
+	{0x68, 0x04, 0x6b, 0x02, 0x07, 0x09}, // Strategy whose Name overruns
 }
 
 // ---------------------------------------------------------------------------- generator
@@ -141,12 +143,34 @@ type routeKeyS struct {
 	org  *uint64
 }
 
+// uni draws an (almost) uniformly distributed number in [0, n). rapid's own integer and
+// SampledFrom generators strongly favour small values / first elements, which would make
+// the stated weights meaningless; single bits are fair, and shrink towards 0.
+func uni(t *rapid.T, label string, n int) int {
+	bits := 3
+	for 1<<(bits-3) < n {
+		bits++
+	}
+	v := 0
+	for i := 0; i < bits; i++ {
+		v <<= 1
+		if rapid.Bool().Draw(t, label) {
+			v |= 1
+		}
+	}
+	return v % n
+}
+
+func pct(t *rapid.T, label string, p int) bool { return uni(t, label, 100) >= 100-p }
+
+func pick[T any](t *rapid.T, label string, items []T) T { return items[uni(t, label, len(items))] }
+
 func weighted(t *rapid.T, label string, items []string, weights []int) string {
 	tot := 0
 	for _, w := range weights {
 		tot += w
 	}
-	x := rapid.IntRange(0, tot-1).Draw(t, label)
+	x := uni(t, label, tot)
 	for i, w := range weights {
 		if x < w {
 			return items[i]
@@ -157,21 +181,24 @@ func weighted(t *rapid.T, label string, items []string, weights []int) string {
 }
 
 func optU(t *rapid.T, label string, pPresent int, vals []uint64) *uint64 {
-	if rapid.IntRange(0, 99).Draw(t, label+"?") >= pPresent {
+	if !pct(t, label+"?", pPresent) {
 		return nil
 	}
-	return up(rapid.SampledFrom(vals).Draw(t, label))
+	return up(pick(t, label, vals))
 }
 
 func (g *genState) fid(label string, allowAbsent bool) string {
-	opts := []string{"", "0", "own", "fk", "nx", "max", "int", "null"}
-	w := []int{4, 1, 3, 6, 2, 1, 1, 1}
+	// never the internal (management) face: a route towards it lets Interests of any name
+	// reach the management thread, and which of them do then depends on the RIB->FIB
+	// flattening (C06); the directed regression case localhop-disabled-but-routed covers it
+	opts := []string{"", "0", "own", "fk", "nx", "max", "null"}
+	w := []int{4, 1, 3, 6, 2, 1, 1}
 	if !allowAbsent {
 		w[0] = 0
 	}
 	s := weighted(g.t, label, opts, w)
 	if s == "fk" {
-		s = fmt.Sprintf("f%d", rapid.IntRange(0, nAppFaces-1).Draw(g.t, label+"k"))
+		s = fmt.Sprintf("f%d", uni(g.t, label+"k", nAppFaces))
 	}
 	return s
 }
@@ -180,13 +207,13 @@ func (g *genState) genOp() Op {
 	t := g.t
 	kinds := []string{"rib-reg", "rib-unreg", "fib-add", "fib-rm", "st-set", "st-unset", "cs-config",
 		"face-update", "face-destroy", "face-create", "dataset", "unknown", "query"}
-	weights := []int{14, 7, 9, 5, 10, 5, 7, 14, 3, 5, 12, 5, 2}
+	weights := []int{12, 6, 8, 5, 9, 4, 7, 16, 3, 6, 12, 5, 2}
 	kind := weighted(t, "kind", kinds, weights)
 	op := Op{Form: "signed"}
 	switch kind {
 	case "rib-reg":
 		op.Mod, op.Verb = "rib", "register"
-		op.P.Name = sp(rapid.SampledFrom(ribNames).Draw(t, "name"))
+		op.P.Name = sp(pick(t, "name", ribNames))
 		op.P.Fid = g.fid("fid", true)
 		op.P.Org = optU(t, "org", 40, []uint64{0, 64, 65, 128, 255})
 		op.P.Cost = optU(t, "cost", 50, []uint64{0, 1, 7, 10, 1<<64 - 1})
@@ -195,56 +222,56 @@ func (g *genState) genOp() Op {
 		g.routes = append(g.routes, routeKeyS{*op.P.Name, op.P.Fid, op.P.Org})
 	case "rib-unreg":
 		op.Mod, op.Verb = "rib", "unregister"
-		if len(g.routes) > 0 && rapid.IntRange(0, 9).Draw(t, "existing") < 7 {
-			r := rapid.SampledFrom(g.routes).Draw(t, "route")
+		if len(g.routes) > 0 && pct(t, "existing", 70) {
+			r := pick(t, "route", g.routes)
 			op.P.Name, op.P.Fid, op.P.Org = sp(r.name), r.fid, r.org
 		} else {
-			op.P.Name = sp(rapid.SampledFrom(ribNames).Draw(t, "name"))
+			op.P.Name = sp(pick(t, "name", ribNames))
 			op.P.Fid = g.fid("fid", true)
 			op.P.Org = optU(t, "org", 40, []uint64{0, 64, 65, 128, 255})
 		}
 	case "fib-add":
 		op.Mod, op.Verb = "fib", "add-nexthop"
-		op.P.Name = sp(rapid.SampledFrom(fibNames).Draw(t, "name"))
+		op.P.Name = sp(pick(t, "name", fibNames))
 		op.P.Fid = g.fid("fid", true)
 		op.P.Cost = optU(t, "cost", 60, []uint64{0, 1, 7, 10, 1<<64 - 1})
 		g.hops = append(g.hops, [2]string{*op.P.Name, op.P.Fid})
 	case "fib-rm":
 		op.Mod, op.Verb = "fib", "remove-nexthop"
-		if len(g.hops) > 0 && rapid.IntRange(0, 9).Draw(t, "existing") < 7 {
-			h := rapid.SampledFrom(g.hops).Draw(t, "hop")
+		if len(g.hops) > 0 && pct(t, "existing", 70) {
+			h := pick(t, "hop", g.hops)
 			op.P.Name, op.P.Fid = sp(h[0]), h[1]
 		} else {
-			op.P.Name = sp(rapid.SampledFrom(fibNames).Draw(t, "name"))
+			op.P.Name = sp(pick(t, "name", fibNames))
 			op.P.Fid = g.fid("fid", true)
 		}
 	case "st-set":
 		op.Mod, op.Verb = "strategy-choice", "set"
-		op.P.Name = sp(rapid.SampledFrom(stratNames).Draw(t, "name"))
-		if rapid.IntRange(0, 9).Draw(t, "good") < 6 {
-			op.P.Strat = sp(rapid.SampledFrom(goodStrategies).Draw(t, "strat"))
+		op.P.Name = sp(pick(t, "name", stratNames))
+		if pct(t, "good", 60) {
+			op.P.Strat = sp(pick(t, "strat", goodStrategies))
 		} else {
-			op.P.Strat = sp(rapid.SampledFrom(oddStrategies).Draw(t, "oddstrat"))
+			op.P.Strat = sp(pick(t, "oddstrat", oddStrategies))
 		}
 		g.strats = append(g.strats, *op.P.Name)
 	case "st-unset":
 		op.Mod, op.Verb = "strategy-choice", "unset"
-		if len(g.strats) > 0 && rapid.IntRange(0, 9).Draw(t, "existing") < 6 {
-			op.P.Name = sp(rapid.SampledFrom(g.strats).Draw(t, "sname"))
+		if len(g.strats) > 0 && pct(t, "existing", 60) {
+			op.P.Name = sp(pick(t, "sname", g.strats))
 		} else {
-			op.P.Name = sp(rapid.SampledFrom(stratNames).Draw(t, "name"))
+			op.P.Name = sp(pick(t, "name", stratNames))
 		}
 	case "cs-config":
 		op.Mod, op.Verb = "cs", "config"
 		op.P.Cap = optU(t, "cap", 80, []uint64{0, 1, 2, 65535, 1 << 32, 1<<63 - 1, 1 << 63, 1<<64 - 1})
-		switch rapid.IntRange(0, 9).Draw(t, "fm") {
+		switch uni(t, "fm", 10) {
 		case 0:
-			op.P.Flags = up(rapid.Uint64Range(0, 3).Draw(t, "flags"))
+			op.P.Flags = up(uint64(uni(t, "flags", 4)))
 		case 1:
-			op.P.Mask = up(rapid.Uint64Range(0, 3).Draw(t, "mask"))
+			op.P.Mask = up(uint64(uni(t, "mask", 4)))
 		case 2, 3:
-			op.P.Flags = up(rapid.Uint64Range(0, 3).Draw(t, "flags"))
-			op.P.Mask = up(rapid.Uint64Range(0, 3).Draw(t, "mask"))
+			op.P.Flags = up(uint64(uni(t, "flags", 4)))
+			op.P.Mask = up(uint64(uni(t, "mask", 4)))
 		}
 	case "face-update":
 		op.Mod, op.Verb = "faces", "update"
@@ -254,7 +281,7 @@ func (g *genState) genOp() Op {
 			[]int{3, 2, 6, 5, 2, 2, 1, 1, 1, 1})
 		if tgt == "own" {
 			op.P.Fid = weighted(t, "ownform", []string{"", "0", "own"}, []int{2, 1, 1})
-			op.Face = rapid.SampledFrom([]int{1, 3, 3}).Draw(t, "ownface")
+			op.Face = pick(t, "ownface", []int{1, 3, 3})
 			tgt = fmt.Sprintf("f%d", op.Face)
 		} else {
 			op.P.Fid = tgt
@@ -268,23 +295,23 @@ func (g *genState) genOp() Op {
 			}
 		}
 		op.P.Pers = optU(t, "pers", 25, []uint64{0, 1, 2, 7})
-		switch rapid.IntRange(0, 9).Draw(t, "fm") {
+		switch uni(t, "fm", 10) {
 		case 0:
-			op.P.Flags = up(rapid.Uint64Range(0, 7).Draw(t, "flags"))
+			op.P.Flags = up(uint64(uni(t, "flags", 8)))
 		case 1:
-			op.P.Mask = up(rapid.Uint64Range(0, 7).Draw(t, "mask"))
+			op.P.Mask = up(uint64(uni(t, "mask", 8)))
 		case 2, 3, 4:
-			op.P.Flags = up(rapid.Uint64Range(0, 7).Draw(t, "flags"))
-			op.P.Mask = up(rapid.Uint64Range(0, 7).Draw(t, "mask"))
+			op.P.Flags = up(uint64(uni(t, "flags", 8)))
+			op.P.Mask = up(uint64(uni(t, "mask", 8)))
 		}
 		op.P.BCI = optU(t, "bci", 15, []uint64{0, 1, 100000000, 5000000000})
 		op.P.DCT = optU(t, "dct", 15, []uint64{0, 1, 65536, 1 << 40})
-		op.Probe = rapid.SampledFrom([]int{0, 0, 40, 300, 1500, 8000}).Draw(t, "probe")
+		op.Probe = pick(t, "probe", []int{0, 0, 40, 300, 1500, 8000})
 	case "face-destroy":
 		op.Mod, op.Verb = "faces", "destroy"
 		tgt := weighted(t, "tgt", []string{"", "0", "nx", "max", "fk"}, []int{1, 1, 2, 1, 6})
 		if tgt == "fk" {
-			k := rapid.IntRange(1, nAppFaces-1).Draw(t, "k")
+			k := 1 + uni(t, "k", nAppFaces-1)
 			if g.nDestroy >= 2 && !g.destroyed[k] {
 				tgt = "nx"
 			} else {
@@ -300,25 +327,29 @@ func (g *genState) genOp() Op {
 		// only requests that must be refused: a successful create opens a real socket,
 		// which cannot live inside a bubble (see NOTES.md; covered by TestC17FaceCreate)
 		op.Mod, op.Verb = "faces", "create"
-		switch rapid.IntRange(0, 7).Draw(t, "how") {
+		switch uni(t, "how", 8) {
 		case 0: // missing Uri
 		case 1:
-			op.P.Uri = sp(rapid.SampledFrom([]string{"", "nonsense", "udp4://", "udp4://10.0.0.9", "udp4://10.0.0.9:0",
+			op.P.Uri = sp(pick(t, "baduri", []string{"", "nonsense", "udp4://", "udp4://10.0.0.9", "udp4://10.0.0.9:0",
 				"udp4://10.0.0.9:65536", "null://", "internal://", "bogus://10.0.0.9:6363", "ws://10.0.0.9:9696",
-				"udp6://10.0.0.9:6363x"}).Draw(t, "baduri"))
+				"udp6://10.0.0.9:6363x"}))
 		case 2:
-			op.P.Uri = sp(rapid.SampledFrom([]string{"fd://99", "dev://eth0", "unix:///tmp/nosuch.sock"}).Draw(t, "scheme"))
-		case 3: // conflicts with an existing face
-			op.P.Uri = sp(faceSpecs[rapid.IntRange(0, nAppFaces-1).Draw(t, "k")].remote)
+			op.P.Uri = sp(pick(t, "scheme", []string{"fd://99", "dev://eth0", "unix:///tmp/nosuch.sock"}))
+		case 3: // conflicts with an existing face (one that no earlier command may have destroyed)
+			k := uni(t, "k", nAppFaces)
+			if g.destroyed[k] {
+				k = 0
+			}
+			op.P.Uri = sp(faceSpecs[k].remote)
 		case 4: // multicast / unspecified remote
-			op.P.Uri = sp(rapid.SampledFrom([]string{"udp4://224.0.23.170:56363", "udp4://0.0.0.0:6363", "tcp4://224.0.0.1:6363",
-				"udp6://[ff02::1234]:56363"}).Draw(t, "mc"))
+			op.P.Uri = sp(pick(t, "mc", []string{"udp4://224.0.23.170:56363", "udp4://0.0.0.0:6363", "tcp4://224.0.0.1:6363",
+				"udp6://[ff02::1234]:56363"}))
 		case 5: // on-demand persistency cannot be requested
-			op.P.Uri = sp(rapid.SampledFrom([]string{"udp4://10.0.0.9:6363", "tcp4://10.0.0.9:6363"}).Draw(t, "u"))
-			op.P.Pers = up(rapid.SampledFrom([]uint64{1, 7}).Draw(t, "pers"))
+			op.P.Uri = sp(pick(t, "u", []string{"udp4://10.0.0.9:6363", "tcp4://10.0.0.9:6363"}))
+			op.P.Pers = up(pick(t, "pers", []uint64{1, 7}))
 		default: // Flags without Mask or Mask without Flags
-			op.P.Uri = sp(rapid.SampledFrom([]string{"udp4://10.0.0.9:6363", "tcp4://10.0.0.9:6363"}).Draw(t, "u"))
-			if rapid.Bool().Draw(t, "flagsonly") {
+			op.P.Uri = sp(pick(t, "u", []string{"udp4://10.0.0.9:6363", "tcp4://10.0.0.9:6363"}))
+			if pct(t, "flagsonly", 50) {
 				op.P.Flags = up(1)
 			} else {
 				op.P.Mask = up(1)
@@ -326,30 +357,30 @@ func (g *genState) genOp() Op {
 		}
 		op.P.Mtu = optU(t, "mtu", 30, mtuValues)
 	case "dataset":
-		ds := rapid.SampledFrom([][2]string{{"rib", "list"}, {"fib", "list"}, {"strategy-choice", "list"}, {"cs", "info"},
-			{"faces", "list"}, {"status", "general"}}).Draw(t, "ds")
+		ds := pick(t, "ds", [][2]string{{"rib", "list"}, {"fib", "list"}, {"strategy-choice", "list"}, {"cs", "info"},
+			{"faces", "list"}, {"status", "general"}})
 		op.Mod, op.Verb = ds[0], ds[1]
 		op.Form = "ds"
-		if rapid.IntRange(0, 9).Draw(t, "dsx") == 0 {
+		if pct(t, "dsx", 8) {
 			op.Form = "dsx"
 		}
 	case "unknown":
-		mv := rapid.SampledFrom([][2]string{{"foo", "bar"}, {"rib", "foo"}, {"fib", "list2"}, {"cs", "erase"}, {"cs", "query"},
+		mv := pick(t, "mv", [][2]string{{"foo", "bar"}, {"rib", "foo"}, {"fib", "list2"}, {"cs", "erase"}, {"cs", "query"},
 			{"rib", "announce"}, {"status", "foo"}, {"", ""}, {"rib", ""}, {"strategy-choice", "reset"}, {"faces", "events"},
-			{"RIB", "register"}, {"nfd", "rib"}, {"strategy", "set"}}).Draw(t, "mv")
+			{"RIB", "register"}, {"nfd", "rib"}, {"strategy", "set"}})
 		op.Mod, op.Verb = mv[0], mv[1]
-		op.P.Name = sp(rapid.SampledFrom(ribNames).Draw(t, "name"))
+		op.P.Name = sp(pick(t, "name", ribNames))
 		op.P.Fid = g.fid("fid", true)
 	case "query":
 		op.Mod, op.Verb = "faces", "query"
 		op.Form = "garbage"
-		op.Raw = rapid.SampledFrom([][]byte{{0x96, 0x03, 0x69, 0x01, 0x03}, {0x96, 0x00}, {0x96, 0x05, 0x69},
-			{0x68, 0x00}, {}, {0x96, 0x04, 0x83, 0x02, 'f', 'd'}}).Draw(t, "filter")
+		op.Raw = pick(t, "filter", [][]byte{{0x96, 0x03, 0x69, 0x01, 0x03}, {0x96, 0x00}, {0x96, 0x05, 0x69},
+			{0x68, 0x00}, {}, {0x96, 0x04, 0x83, 0x02, 'f', 'd'}})
 	}
 
 	// an occasional field the verb has no use for
-	if op.Form == "signed" && rapid.IntRange(0, 99).Draw(t, "extra") < 6 {
-		switch rapid.IntRange(0, 3).Draw(t, "which") {
+	if op.Form == "signed" && pct(t, "extra", 5) {
+		switch uni(t, "which", 4) {
 		case 0:
 			if op.P.Cnt == nil {
 				op.P.Cnt = up(3)
@@ -374,7 +405,7 @@ func (g *genState) genOp() Op {
 		op.Form = weighted(t, "form", []string{"signed", "plain", "noparam", "garbage", "empty", "wrongtlv", "trunc"},
 			[]int{62, 20, 5, 5, 2, 3, 3})
 		if op.Form == "garbage" {
-			op.Raw = rapid.SampledFrom(garbage).Draw(t, "raw")
+			op.Raw = pick(t, "raw", garbage)
 		}
 	}
 
@@ -385,49 +416,54 @@ func (g *genState) genOp() Op {
 	case "auth":
 		op.Pfx = pfxLocal
 		if !ownTarget {
-			op.Face = rapid.SampledFrom([]int{0, 0, 0, 1, 1, 3, 3}).Draw(t, "face")
+			op.Face = pick(t, "face", []int{0, 0, 0, 1, 1, 3, 3})
 		}
 	case "hop":
 		op.Pfx = pfxLocalhop
 		if !ownTarget {
-			op.Face = rapid.IntRange(0, nAppFaces-1).Draw(t, "face")
+			op.Face = uni(t, "face", nAppFaces)
 		}
-		if rapid.Bool().Draw(t, "hoprib") && op.Mod != "rib" && op.Form != "ds" && op.Form != "dsx" {
+		if pct(t, "hoprib", 50) && op.Mod != "rib" && op.Form != "ds" && op.Form != "dsx" {
 			// most localhop traffic is prefix registration
-			name := rapid.SampledFrom(ribNames).Draw(t, "hopname")
+			name := pick(t, "hopname", ribNames)
 			op = Op{Face: op.Face, Pfx: pfxLocalhop, Mod: "rib", Verb: "register", Form: "signed",
 				P: P{Name: &name, Cost: optU(t, "hopcost", 50, []uint64{0, 5})}}
 			g.routes = append(g.routes, routeKeyS{name, "", nil})
 		}
 	case "nonlocal":
 		op.Pfx = pfxLocal
-		op.Face = rapid.SampledFrom([]int{2, 2, 4}).Draw(t, "face")
+		op.Face = pick(t, "face", []int{2, 2, 4})
 	default:
-		op.Pfx = rapid.SampledFrom(otherPrefixes).Draw(t, "pfx")
+		op.Pfx = pick(t, "pfx", otherPrefixes)
 		if !ownTarget {
-			op.Face = rapid.SampledFrom([]int{0, 1, 2, 3}).Draw(t, "face")
+			op.Face = pick(t, "face", []int{0, 1, 2, 3})
 		}
 	}
-	op.Lp = rapid.IntRange(0, 9).Draw(t, "lp") < 2
-	op.Fresh = rapid.IntRange(0, 9).Draw(t, "mbf") < 2
+	op.Lp = pct(t, "lp", 20)
+	op.Fresh = pct(t, "mbf", 20)
 	return op
 }
 
 func genCase(t *rapid.T) Case {
 	c := Case{
-		Threads:  rapid.SampledFrom([]int{1, 1, 2, 3}).Draw(t, "threads"),
-		Localhop: rapid.Bool().Draw(t, "localhop"),
-		Fib:      rapid.SampledFrom([]string{"nametree", "hashtable"}).Draw(t, "fib"),
-		CsCap:    rapid.SampledFrom([]uint16{0, 1, 64, 1024}).Draw(t, "cscap"),
+		Threads:  pick(t, "threads", []int{1, 1, 2, 3}),
+		Localhop: pct(t, "localhop", 50),
+		Fib:      pick(t, "fib", []string{"nametree", "hashtable"}),
+		CsCap:    pick(t, "cscap", []uint16{0, 1, 64, 1024}),
 	}
 	maxOps := 15
 	if evid.Thorough() {
 		maxOps = 24
 	}
-	n := rapid.IntRange(1, maxOps).Draw(t, "nops")
+	n := 1 + uni(t, "nops", maxOps)
 	g := &genState{t: t, c: &c}
 	for i := 0; i < n; i++ {
-		c.Ops = append(c.Ops, g.genOp())
+		op := g.genOp()
+		// lets the shrinker delete any single command (all-zero bits = dropped)
+		if uni(t, "keep", 16) == 0 && i > 0 {
+			continue
+		}
+		c.Ops = append(c.Ops, op)
 	}
 	return c
 }
